@@ -66,7 +66,16 @@ pub const VARIANTS: &[(&str, &[&str])] = &[
     ("cycles-many", &["C09", "C10"]),
     ("carry-many", &["C10"]),
     ("fanout-stepped", &["C07"]),
+    ("root-weaks-paced", &["C09"]),
 ];
+
+/// A root that itself holds many weak pointers (the random runs' root has two weak slots).
+#[derive(Collect)]
+#[collect(no_drop)]
+struct Watch<'gc> {
+    watch: Vec<GcWeak<'gc, Cnt>>,
+    keep: Vec<Gc<'gc, Cnt>>,
+}
 
 /// A wide root: n children of one object (the gray queue holds them all at once), n weak
 /// pointers, and a DynamicRootSet.
@@ -293,6 +302,72 @@ fn scenario(variant: &str, n: usize) -> Result<(), String> {
             arena.finish_cycle();
             if m.total_gc_count() != 3 || drops() != n {
                 return Err(format!("the weak pointers are gone and two cycles ran: total_gc_count reads {} (expected 3), {} destructor runs (expected {n})", m.total_gc_count(), drops()));
+            }
+        }
+        "root-weaks-paced" => {
+            // The statement's liveness bound, default pacing, on a root that is made gray again
+            // (mutate_root) before every debt-driven call while it holds K weak pointers to values
+            // nothing else reaches: re-visiting those pointers is no marking work, so a cycle that
+            // woke with H allocations is finished before rho*H/(1-rho) more were made. Time is
+            // quadratic in K (the root is traced once per step), hence the cap on K.
+            use gc_arena::arena::CollectionPhase;
+            let k = 512 + n % 3584;
+            let burst = 1 + (n / 4096) % 3;
+            let p = gc_arena::metrics::Pacing::DEFAULT;
+            let rho = (p.mark_factor + p.trace_factor + p.keep_factor).max(p.drop_factor + p.free_factor).max(p.mark_factor + p.drop_factor + p.keep_factor);
+            let mut arena = Arena::<Rootable![Watch<'_>]>::new(|mc| Watch { watch: Vec::new(), keep: (0..k).map(|i| Gc::new(mc, Cnt(i as u32))).collect() });
+            let m = arena.metrics().clone();
+            arena.finish_cycle();
+            if m.total_gc_count() != k || drops() != 0 {
+                return Err(format!("{k} values held by the root: after a full cycle total_gc_count reads {} and {} were destructed", m.total_gc_count(), drops()));
+            }
+            arena.mutate_root(|_, root| {
+                root.watch = root.keep.iter().map(|&g| Gc::downgrade(g)).collect();
+                root.keep.clear();
+            });
+            for cycle in 0..4 {
+                if arena.collection_phase() != CollectionPhase::Sleeping {
+                    return Err(format!("cycle {cycle}: the collector is not asleep after a finished cycle"));
+                }
+                // until a debt-driven call wakes it
+                let mut steps = 0usize;
+                let h = loop {
+                    arena.mutate_root(|mc, root| {
+                        for i in 0..burst {
+                            root.keep.push(Gc::new(mc, Cnt(i as u32)));
+                        }
+                    });
+                    let c0 = m.total_gc_count();
+                    arena.cycle_debt();
+                    if arena.collection_phase() != CollectionPhase::Sleeping {
+                        break c0;
+                    }
+                    steps += 1;
+                    if steps > 64 * k + 4096 {
+                        return Err(format!("cycle {cycle}: {steps} steps of {burst} allocations with default pacing and the collector never woke (count {})", m.total_gc_count()));
+                    }
+                };
+                let bound = rho * h as f64 / (1.0 - rho);
+                let mut made = 0usize;
+                loop {
+                    arena.mutate_root(|mc, root| {
+                        for i in 0..burst {
+                            root.keep.push(Gc::new(mc, Cnt(i as u32)));
+                        }
+                    });
+                    made += burst;
+                    arena.cycle_debt();
+                    if arena.collection_phase() == CollectionPhase::Sleeping {
+                        break;
+                    }
+                    if !((made as f64) < bound) {
+                        return Err(format!("cycle {cycle}: woke with H = {h} (the root holds {k} weak pointers and is written before every call); {made} allocations later the cycle is still unfinished after cycle_debt, but rho*H/(1-rho) = {bound} (rho = {rho})"));
+                    }
+                }
+                // every other cycle the root lets go of what it kept
+                if cycle % 2 == 1 {
+                    arena.mutate_root(|_, root| root.keep.clear());
+                }
             }
         }
         "handles-many" => {
